@@ -89,3 +89,26 @@ async fn d10_string_index_one_past_the_table() {
     // index 2 does not exist: must be `None`, used to read the pad byte as a length
     assert_eq!(e.find_string::<64>(2).await, Ok(None));
 }
+
+#[tokio::test]
+async fn d22_odd_length_ranges() {
+    use embedded_io_async::{Read, Write};
+    // SubDevice::eeprom_read::<[u8; 3]> / eeprom_read_raw with an odd buffer / eeprom_write_dangerously::<u8> all go through
+    // `start_at(word, len_bytes)`, which used to size the window as len_bytes / 2 words (rounding DOWN).
+    let e = SubDeviceEeprom::new(Mem::with(&[(0x10, &[1, 2, 3, 4])]));
+    let mut buf = [0u8; 3];
+    // used to fail with SectionOverrun: the window was one byte shorter than the requested length
+    assert_eq!(e.start_at(8, 3).read_exact(&mut buf).await, Ok(()));
+    assert_eq!(buf, [1, 2, 3]);
+    // used to panic inside embedded-io's write_all ("write() returned Ok(0)"): the window for a 1-byte value was empty
+    assert_eq!(e.start_at(8, 1).write_all(&[0xab]).await, Ok(()));
+}
+
+#[tokio::test]
+async fn d23_write_last_word_of_address_space() {
+    use embedded_io_async::Write;
+    // eeprom_write_dangerously(md, 0x7fff, 0u16): the window is the last word of the u16 byte address space
+    let mut r = EepromRange::new(Mem::with(&[]), 0x7fff, 1);
+    // `self.byte_pos += 2` used to overflow u16 after the word at 0xfffe was written
+    let _ = r.write(&[1, 2]).await;
+}
